@@ -480,9 +480,19 @@ def install6(R: Registry):
                ensures=["self._connected", SOCK_OK, "fresh(self._sock)", "self.mgr_subs == empty('Int')"],
                raises={"MessageManagerNotFound": ["not self._connected"], "SocketOptionError": ["not self._connected"], "ValueError": []},
                doc="opens a new TCP connection (assumed: a fresh open socket whose inbound stream is a sequence of well-formed frames)")
-    R.external("Client.disconnect", params=dict(self="Client"),
+    R.external("CSocket.close", params=dict(self="CSocket"), modifies=["CSocket.closed"], ensures=["self.closed", "forall('s:CSocket', implies(s != self, s.closed == old(s.closed)))"],
+               doc="socket.close(): the socket is closed (idempotent), no other socket is touched")
+    R.contract(C + "Client.disconnect", tags="C02 C06 C08",
+               requires=["self._sock != null", "implies(self._connected, not self._sock.closed)"],
+               # type invariants of a constructed client, assumed on entry (listed as assumptions): fewer than 2^31 frames sent, int16 module / host ids
+               assume_on_entry=["0 <= self._msg_count and self._msg_count <= 2147483647",
+                                "-32768 <= self._module_id and self._module_id <= 32767 and -32768 <= self._host_id and self._host_id <= 32767"],
                modifies=["Client._connected", "Client._subscribed_types", "Client._paused_types", "Client._sub_all", "CSocket.closed", "Client._msg_count", "CSocket.tx_n", "CSocket.tx_hdr"],
-               ensures=["not self._connected"], doc="sends DISCONNECT if connected, closes the socket, resets the bookkeeping (assumed)")
+               ensures=[("C02 C06 C08", "not self._connected and self._sock.closed", "after disconnect the client is in the disconnected state and its socket is closed - whatever the DISCONNECT send did"),
+                        ("C02", "self._subscribed_types == empty('Int') and self._paused_types == empty('Int') and not self._sub_all",
+                         "the client reports no subscription after it has left (the manager forgets a departed module's subscriptions: C07)"),
+                        "forall('c:Client', implies(c != self, c._connected == old(c._connected)))"],
+               doc="sends DISCONNECT if connected (any failure swallowed), closes the socket, resets the bookkeeping - verified from source")
     R.external("Client.__init__", params=dict(self="Client", module_id="Int", host_id="Int", timecode="Bool", name="Str"),
                modifies=["Client.*"],
                ensures=["self._module_id == module_id and self._host_id == host_id and not self._connected and self._dynamic_id == (module_id == 0) and 0 <= module_id and module_id < 100",
@@ -502,7 +512,9 @@ def install6(R: Registry):
     R.contract(C + "Client.connect", tags="C06",
                params=dict(server_name="Str", logger_status="Bool", daemon_status="Bool", allow_multiple="Bool"),
                requires=["_VALIDATION_ENABLED", "self._logger != null", "isascii(self._name) and len(self._name) <= 31", "0 <= self._module_id and self._module_id < 200",
-                         "self._header_cls == classid(MessageHeader) or self._header_cls == classid(TimeCodeMessageHeader)"],
+                         "self._header_cls == classid(MessageHeader) or self._header_cls == classid(TimeCodeMessageHeader)",
+                         # the object invariants disconnect() needs when connect() is called on a client that is already connected
+                         "self._sock != null and implies(self._connected, not self._sock.closed)"],
                modifies=HELP_MOD,
                ensures=[("C06", "v2_as_named(self, logger_status, daemon_status, allow_multiple, ite(old(self._dynamic_id), 0, old(self._module_id)))",
                          "Client.connect transmits its options exactly as named"),
